@@ -260,7 +260,10 @@ def sub_markers(item, contract, out, assume=False, twin=None):
     if contract is not None and not assume:
         for where, anchor, lines in contract.proofs:
             lines = [(re.sub(r"\$([A-Za-z_]+)(?:#(\d+))?", _loopvar, t), lab) for (t, lab) in lines]
-            hits = [i for i, l in enumerate(src_lines) if anchor in l]
+            if anchor.startswith("="):
+                hits = [i for i, l in enumerate(src_lines) if l.strip() == anchor[1:].strip()]
+            else:
+                hits = [i for i, l in enumerate(src_lines) if anchor in l]
             if len(hits) != 1:
                 raise Undecided("lost-anchor", f"{path}: proof anchor {anchor!r} matches {len(hits)} lines")
             (inserts_before if where == "before" else inserts_after).setdefault(hits[0], []).extend(lines)
